@@ -46,16 +46,16 @@ pub fn now_text(r: Result<(libc::timespec, libc::timespec, ClockStatus), ShmErro
 
 /// panics of the code under test (inside `guarded`) are expected outcomes and stay silent; a panic of
 /// the harness itself is printed.
-pub static QUIET: std::sync::atomic::AtomicBool = std::sync::atomic::AtomicBool::new(false);
+pub static QUIET: std::sync::atomic::AtomicUsize = std::sync::atomic::AtomicUsize::new(0);
 pub fn quiet_panics() {
     panic::set_hook(Box::new(|info| {
-        if !QUIET.load(std::sync::atomic::Ordering::SeqCst) { eprintln!("harness panic: {}", info); }
+        if QUIET.load(std::sync::atomic::Ordering::SeqCst) == 0 { eprintln!("harness panic: {}", info); }
     }));
 }
 pub fn guarded<R>(f: impl FnOnce() -> R + panic::UnwindSafe) -> Result<R, ()> {
-    QUIET.store(true, std::sync::atomic::Ordering::SeqCst);
+    QUIET.fetch_add(1, std::sync::atomic::Ordering::SeqCst);
     let r = panic::catch_unwind(f);
-    QUIET.store(false, std::sync::atomic::Ordering::SeqCst);
+    QUIET.fetch_sub(1, std::sync::atomic::Ordering::SeqCst);
     r.map_err(|_| ())
 }
 
